@@ -394,11 +394,11 @@ func VH_C02_store_rollover() {
 	s1.root = vhResponseRoot(s1, "samlp:Response")
 	a1 := vhAssertionEl("c0", vChoice("c0.sig", 2))
 	s1.root.AddChild(a1.el)
+	vAssume(a1.ID != s1.ID)
 	enc := vEncodeDoc("wire", s1.root, 0)
 	_, err1 := sp.ValidateEncodedResponse(enc)
 	vDebugErr("first", err1)
 	k := vValidateCalls()
-	vAssume(k >= 1)
 	// reconfigure
 	sp.IDPCertificateStore = vEmptyStore()
 	kind := vChoice("second.entry", 3)
